@@ -1292,7 +1292,39 @@ class Executor:
     def ev_GeneratorExp(self, e, st):
         yield self.comp_value(e, st), st
 
+    def comp_as_loop(self, e, st, k):
+        """Execute [elt for target in iter] as an explicit loop with the contract's loop invariant (side effects)."""
+        spec = self.cur_contract.comp_loops[k]
+        name = f"_comp{k}"
+        t = self.cur_contract.locals.get(name)
+        if not isinstance(t, List):
+            raise ContractError(f"comp_loops[{k}] needs locals['{name}'] = List(...)")
+        g = e.generators[0]
+        if len(e.generators) != 1 or g.ifs:
+            raise Untranslatable("comprehension executed as a loop must have one `for` and no `if`")
+        st.env[name] = self.alloc(st, t)
+        body = ast.Expr(ast.Call(ast.Attribute(ast.Name(name, ast.Load()), "append", ast.Load()), [e.elt], []))
+        loop = ast.For(target=g.target, iter=g.iter, body=[body], orelse=[])
+        ast.copy_location(loop, e)
+        ast.fix_missing_locations(loop)
+        loop._pyvc_comp = k
+        outs = self.ex_block([loop], st)
+        for o in outs:
+            if o.kind == "normal":
+                yield o.state.env[name], o.state
+            elif o.kind == "raise":
+                self.raise_buf.append(o)
+            else:
+                raise Untranslatable("comprehension loop left abnormally")
+
     def ev_ListComp(self, e, st):
+        if self.cur_contract is not None and getattr(self.cur_contract, "comp_loops", None) and not self.spec:
+            sid = self.site(e)
+            if sid.split("/")[-1].startswith("listcomp#"):
+                k = int(sid.split("#")[-1])
+                if k in self.cur_contract.comp_loops:
+                    yield from self.comp_as_loop(e, st, k)
+                    return
         want = getattr(self, "expect_type", None)
         if isinstance(e.elt, ast.List) and len(e.generators) == 1 and not e.generators[0].ifs \
                 and isinstance(want, List) and isinstance(want.elt, List):
